@@ -538,7 +538,7 @@ func writeEvidence(p *Property, o CheckOpts, r *Result, planned, nviol, nknown i
 		if n == 0 {
 			continue
 		}
-		strata[s.Name] = map[string]any{"planned": n, "run": r.PerStratum[s.Name], "exhaustive": s.Exhaustive}
+		strata[s.Name] = map[string]any{"planned": n, "run": r.PerStratum[s.Name], "exhaustive": s.Exhaustive, "observed": r.ByStratum[s.Name]}
 		if !s.Exhaustive {
 			allEx = false
 		}
